@@ -21,7 +21,7 @@
 (*                 | 3:  + G, G a list expression that uses math names and builtins       *)
 (*   cst    constant of equation 1:  0: 2.0 | 1: a closed expression over math names /     *)
 (*          builtins chosen by fn (sqrt(4.0), tanh(0.5) + 1.5, e, max(2.0, 1.0), ...)     *)
-(*          | 2: c0 with the line c0 = 2.0 | 3: 1000000.0 (large values)                  *)
+(*          | 2: c0 with the line c0 = 2.0 | 3: 1000000.0 | 4: 2000.0 (large values)      *)
 (*   tw     spelling of the time trend: 0.25*t or wrapped in max / hypot / abs / copysign *)
 (*   userT  "none": the parser injects t = k                                             *)
 (*          "endo": t = t_minus_1 + 1.0 and t_minus_1 = t(k-1)                           *)
@@ -34,6 +34,7 @@
 (*   uk     + 0.25*k in the last equation (an ordinary equation reads the step index k)  *)
 (*   useT   + 0.25*t in the last equation                                                *)
 (*   tol    0: no Err_Tolerance line (parser default 1e-8) | 4: Err_Tolerance = 1e-4     *)
+(*          | 6: Err_Tolerance = 1e-6                                                    *)
 (*          | 100: Err_Tolerance = 1.0 | 200: Err_Tolerance = 2.0  (used with cst = 3)    *)
 (*   ps     spelling of a WHOLE right-hand side without any name - the parameter line    *)
 (*          (cst = 2) and every equation i > 1 whose row of A is zero: 0: the plain       *)
@@ -92,7 +93,7 @@ OffDiag(o, i) ==
     IN [ q \in 1..Len(idx) |-> VarName(o, idx[q]) ]
 
 Last(o) == IF o.n = 0 THEN "none" ELSE VarName(o, o.n)
-TolText(o) == CASE o.tol = 0 -> "1e-8" [] o.tol = 4 -> "1e-4" [] o.tol = 100 -> "1.0" [] o.tol = 200 -> "2.0"
+TolText(o) == CASE o.tol = 0 -> "1e-8" [] o.tol = 4 -> "1e-4" [] o.tol = 6 -> "1e-6" [] o.tol = 100 -> "1.0" [] o.tol = 200 -> "2.0"
 LagName(o) == "LAG_" \o Last(o)
 Lag2Name(o) == "LAG2_" \o Last(o)
 LagBName(o) == "LAGB_" \o Last(o)
@@ -259,6 +260,12 @@ FirstProfiles ==
 FirstBlocksAll == { MkBlock([n |-> 2, A |-> << << 0, 1 >>, << 2, 0 >> >>] @@ pr
                             @@ [fn |-> 0, tw |-> 0, red |-> FALSE, al |-> FALSE, ps |-> 0, uk |-> FALSE, cm |-> 0]) :
                     pr \in FirstProfiles }
+(* large magnitudes crossed with the tolerances: the stated tolerance is absolute, the equation error *)
+(* of the module must not grow with the size of the values                                            *)
+ScaleProfiles ==
+    { [lag |-> l, ic |-> FALSE, exo |-> x, cst |-> s, userT |-> u, useT |-> w, tol |-> tl, nm |-> 0] :
+      l \in {0, 1}, x \in {0, 1}, s \in {3, 4}, u \in {"none", "endo"}, w \in BOOLEAN, tl \in {0, 4, 6} }
+ScaleMats == { << << 0, 1 >>, << 2, 0 >> >>, << << 0, 1, 1 >>, << 1, 0, 1 >>, << 1, 1, 0 >> >> }
 Base2 == { << << 0, 1 >>, << 2, 0 >> >> }
 OwnNameMats == Mats1 \cup Base2 \cup { << << 0, 1, 1 >>, << 1, 0, 1 >>, << 1, 1, 0 >> >> }
 
@@ -284,6 +291,7 @@ BlocksQuick(mt) ==
     \cup { MkBlock(o) : o \in ProfilesOf(ParamProfiles, ParamMats, {mt}) }
     \cup { MkBlock(o) : o \in ProfilesOf(KProfiles, Mats1 \cup Base2, {mt}) }
     \cup { MkBlock(o) : o \in ProfilesOf(AxisProfiles, Mats0, {mt}) }
+    \cup { MkBlock(o) : o \in ProfilesOf(ScaleProfiles, ScaleMats, {mt}) }
     \cup { MkBlock(o) : o \in ProfilesOf(CommentProfiles, Mats1 \cup Base2, {mt}) }
     \cup { MkBlock(o) : o \in ProfilesOf(PlaceholderProfiles, Mats1 \cup Base2, {mt}) }
 
@@ -307,6 +315,7 @@ BlocksThorough(mt) ==
     \cup { MkBlock(o) : o \in ProfilesOf(ParamProfiles, Mats1 \cup ParamMats \cup Mats3Few, {mt, 6}) }
     \cup { MkBlock(o) : o \in ProfilesOf(KProfiles, Mats1 \cup BaseMats \cup Mats3Few, {mt, 6}) }
     \cup { MkBlock(o) : o \in ProfilesOf(AxisProfiles, Mats0, {mt, 1, 6}) }
+    \cup { MkBlock(o) : o \in ProfilesOf(ScaleProfiles, Mats1 \cup Mats2 \cup Mats3Few, {mt, 6}) }
     \cup { MkBlock(o) : o \in ProfilesOf(CommentProfiles, Mats1 \cup BaseMats, {mt, 6}) }
     \cup { MkBlock(o) : o \in ProfilesOf(PlaceholderProfiles, Mats1 \cup BaseMats, {mt}) }
 
